@@ -59,7 +59,8 @@ PARTIAL = [
     "decreasing — the inverse of the Filter/Filter squash, the two shapes form a cycle in the model (C19Frag example), the real rules "
     "are kept apart by their dependents guards only; both fire in one optimize() of `m[(m.a>1)&(m.d>20)&(m.b>1)]` (2 splits, 2 squashes, "
     "7 passes) without looping; (4) `SetIndex._simplify_up(Head|Tail)` -> SetIndex(NFirst|NLast): 6, a new operator appears; "
-    "(5) `SortValues._simplify_up(Repartition)`: 19, swaps two operators, measure unchanged; (6) `Len(Concat)` -> sum of Len. For these, "
+    "(5) `SortValues._simplify_up(Repartition)`: 19, swaps two operators, measure unchanged; (6) `Len(Concat)` -> sum of Len (new Add nodes; "
+    "not met in this run). For these, "
     "and for passes containing them (560 of 13561 passes, 176 of them with a non-decreasing measure), convergence is covered by the search only",
     "redundant firings of rules that are otherwise inside the fragment: Assign / AddPrefix / AddSuffix / SetIndexBlockwise / "
     "DropDuplicates `_simplify_up(Projection)` insert a Projection that does not narrow its input when a dependent reports a column "
